@@ -7,7 +7,9 @@
 (* by a crashed process) and which other calls may happen.                  *)
 EXTENDS LayoutGC
 
-CC(root, tag, skip, refs, key) == [root |-> root, tag |-> tag, skip |-> skip, refs |-> refs, key |-> key]
+CC(root, tag, skip, refs, key) == [root |-> root, tag |-> tag, skip |-> skip, refs |-> refs, key |-> key, rt |-> FALSE]
+\* ImageWithReferrers + ImageWithReferrerTgt(this layout): the image goes to another layout
+CCR(root, tag, key) == [root |-> root, tag |-> tag, skip |-> {}, refs |-> TRUE, key |-> key, rt |-> TRUE]
 Base == [cp |-> [c \in Copies |-> CC("M3", "t1", {}, FALSE, "p")], gc |-> TRUE, pre |-> {}, plant |-> {},
          ckeys |-> {"p"}, okey |-> "p", faults |-> TRUE, dels |-> {}, tdels |-> {"t1"},
          pblobs |-> {}, badput |-> FALSE, pmans |-> {}, retags |-> {}, fresh |-> FALSE]
@@ -68,6 +70,13 @@ LinkMixConfs == {
     : fr \in BOOLEAN } \cup {
   [Base EXCEPT !.cp = Two(CC("M1", "t1", {}, FALSE, "p"), CC("M4", "t2", {}, FALSE, "l")),
                !.ckeys = {"l"}, !.okey = "l", !.pre = {<<"M3", "t3">>}, !.tdels = {"t1", "t3"}] }
+\* a copy whose referrers are written to this layout while the image goes elsewhere, next to a
+\* plain copy into this layout
+RefTgtConfs == {
+  [Base EXCEPT !.cp = Two(CCR("M1", "t1", k), CC("M4", "t2", {}, FALSE, "p")),
+               !.ckeys = {"p"}, !.fresh = fr, !.tdels = {"t2", FB}, !.dels = {"A1"}, !.faults = FALSE]
+    : k \in {"p", "l"}, fr \in BOOLEAN }
+
 \* a layout that does not exist when the history starts and / or is reached through a symbolic
 \* link (one spelling per history: everything through the link, or everything through the real path)
 LinkConfs == {
